@@ -116,6 +116,8 @@ def prop(spec):
     res = run_dataset(s)
     STATS['datasets'] += 1
     STATS['pairs'] += res.get('pairs', 0)
+    if res.get('slow_rejection'):
+        STATS['labels']['rejection-sampler-too-slow-to-check'] = STATS['labels'].get('rejection-sampler-too-slow-to-check', 0) + 1
     lab = 'kind%d' % spec['kind']
     STATS['labels'][lab] = STATS['labels'].get(lab, 0) + 1
     if res['ok'] and res['max_caret'] >= 3 and res['has_one']:
